@@ -18,10 +18,10 @@ if git -C $WT diff --name-only | grep -qv '^src/'; then fail "patch touches file
 suite=$(cd $WT && CARGO_TARGET_DIR=$TD cargo test --workspace --no-fail-fast --offline 2>&1 | grep -E "^test result" | awk '{p+=$4; f+=$6} END {print p" "f}')
 [ "$suite" = "78 0" ] || fail "existing suite with the change: $suite (passed failed)"
 cp $OUT/seed_demo.rs $WT/tests/seed_demo.rs
-with=$(cd $WT && CARGO_TARGET_DIR=$TD cargo test --offline --test seed_demo 2>&1 | grep -E "^test result" | tail -1)
+with=$(cd $WT && CARGO_TARGET_DIR=$TD cargo test --offline ${DEMO_FEATURES:-} --test seed_demo 2>&1 | grep -E "^test result" | tail -1)
 echo "$with" | grep -q "FAILED" || fail "demo does not fail with the change: $with"
 (cd $WT && git apply -R $OUT/patch.diff) || fail "cannot revert"
-without=$(cd $WT && CARGO_TARGET_DIR=$TD cargo test --offline --test seed_demo 2>&1 | grep -E "^test result" | tail -1)
+without=$(cd $WT && CARGO_TARGET_DIR=$TD cargo test --offline ${DEMO_FEATURES:-} --test seed_demo 2>&1 | grep -E "^test result" | tail -1)
 echo "$without" | grep -q "test result: ok" || fail "demo does not pass without the change: $without"
 git -C /repo worktree remove --force $WT
 echo "confirmed: suite 78/0 with change; demo with change: $with ; without: $without"
